@@ -323,5 +323,9 @@ func (f FunctionCall) toObject(value Value) *object {
 // CallerLocation will return file location information (file:line:pos) where this function is being called.
 func (f FunctionCall) CallerLocation() string {
 	// see error.go for location()
+	if f.runtime.scope == nil || f.runtime.scope.outer == nil {
+		// Called from Go (Value.Call) with no script running: there is no calling frame.
+		return frame{}.location()
+	}
 	return f.runtime.scope.outer.frame.location()
 }
